@@ -514,6 +514,7 @@ func c17Run(c *Ctx) {
 	// 3e3. any expression may be an argument (an assignment included); ঘাত of a power equals the ** chain
 	for _, src := range []string{
 		Lines(Var("k", "0"), Print(BI("sqrt", "k = 16")), Print("k"), Var("big", "0"), Print(BI("max", "big = 3", "2")), Print(BI("abs", "k = k - 20")), Print(BI("pow", "k = 2", "big = 10")), Print("[k, big]")),
+		Lines(Print(BI("abs", "-~5")), Print(BI("sqrt", "-~15")), Print(BI("pow", "2", "~-4")), Print(BI("max", "-~1", "~-1", "- -1")), Print(BI("round", "-~2 + 0.5")), Var("n", "3"), Print(BI("abs", "~-n")+" + "+BI("abs", "-~n")), Print(BI("abs", "!-0"))),
 		Lines(Print(BI("pow", BI("pow", "2", "3"), "2")+" == 2 ** 3 ** 2"), Print("2 ** 3 ** 2"), Print(BI("sqrt", "16")+" ** 2 ** 0.5"), Var("q", "2"), Print("q ** 2 ** 3 ** -1"), Print(BI("pow", BI("pow", BI("pow", "q", "2"), "3"), "-1"))),
 	} {
 		if c.Mine() {
@@ -548,6 +549,15 @@ func c17Run(c *Ctx) {
 		}
 		if c.Mine() {
 			c17Judge(c, &Case{Gen: "builtin-arity-kinds-cli", Mode: "cli", Src: src, X: map[string]string{"fn": "decl-or-ending", "nargs": "1"}})
+		}
+	}
+	// 3f'. interactive mode: what an earlier line assigned to a built-in's name is gone on the next line
+	for _, sess := range [][]string{
+		{B["max"] + " = 0;", Print(BI("max", "3", "9", "4")), B["pow"] + " = 2; " + Print(B["pow"]), Print(BI("pow", "2", "10")), Print(BI("sqrt", "16")), BI("sqrt", `"k"`) + ";", Print(BI("abs", "-3"))},
+		{Fun("brk", "", " "+B["sqrt"]+" = nil; "+B["abs"]+" = 1; ") + " brk();", Print(BI("sqrt", "16")), BI("abs", "-3") + ";", "{ " + B["round"] + " = 0; }", Print(BI("round", "2.5"))},
+	} {
+		if c.Mine() {
+			c17Judge(c, &Case{Gen: "repl-after-misuse", Src: strings.Join(sess, "\n"), X: map[string]string{"final_newline": "1", "all_self": "1"}})
 		}
 	}
 	// 3f. interactive mode: after a line that misuses a built-in, later lines still compute
